@@ -16,8 +16,8 @@ import sys
 import time
 from pathlib import Path
 
-EVAL_VERIF = Path("/tmp/verif-eval")
-EVAL_REPO = Path("/tmp/eval-repo")
+EVAL_VERIF = Path(os.environ.get("SEEDED_EVAL_VERIF", "/tmp/verif-eval"))      # a second lane sets both
+EVAL_REPO = Path(os.environ.get("SEEDED_EVAL_REPO", "/tmp/eval-repo"))
 ENV = dict(os.environ, CARGO_NET_OFFLINE="true")
 
 
@@ -58,7 +58,7 @@ def main():
     mut = Path(a.mutdir)
     patch = mut / "patch.diff"
     import fcntl
-    lock = open("/tmp/seeded_eval.lock", "w")
+    lock = open(f"/tmp/seeded_eval{EVAL_REPO.name}.lock", "w")
     fcntl.flock(lock, fcntl.LOCK_EX)        # one evaluation at a time: the scratch copies are shared
     refresh()
     meta = {"mutant": mut.name, "confirmed": False}
